@@ -1093,6 +1093,11 @@ mod convert {
         /// If this state occurred after a `SetAddress`, `self.address` is still the
         /// address that was set.
         ConvertRow,
+        /// Return the end of sequence for `self.from_row`.
+        ///
+        /// This state occurs when a `DW_LNE_set_address` was immediately followed
+        /// by a `DW_LNE_end_sequence`.
+        EndSequence,
     }
 
     /// The state for the conversion of a line number program.
@@ -1166,6 +1171,15 @@ mod convert {
         #[allow(unused)] // May need LineString::StringRef in future.
         strings: &'a mut write::StringTable,
         address: Option<u64>,
+        /// The address from the most recent `DW_LNE_set_address` in the current sequence.
+        ///
+        /// Address offsets of rows are relative to this.
+        base_address: u64,
+        /// True if a row has been returned for the current sequence.
+        has_rows: bool,
+        /// The address offset and op_index of the previous row that was returned
+        /// since the most recent `DW_LNE_set_address` in the current sequence.
+        prev_position: (u64, u64),
         state: ConvertLineState,
     }
 
@@ -1293,6 +1307,9 @@ mod convert {
                 line_strings,
                 strings,
                 address: None,
+                base_address: 0,
+                has_rows: false,
+                prev_position: (0, 0),
                 state: ConvertLineState::ReadRow,
             })
         }
@@ -1346,19 +1363,27 @@ mod convert {
                 ConvertLineState::ReadRow => {}
                 ConvertLineState::SetAddress => {
                     if let Some(address) = self.address.take() {
-                        self.state = ConvertLineState::ConvertRow;
+                        self.state = if self.from_row.end_sequence() {
+                            ConvertLineState::EndSequence
+                        } else {
+                            ConvertLineState::ConvertRow
+                        };
                         return Ok(Some(ConvertLineRow::SetAddress(address)));
                     }
                     self.state = ConvertLineState::ReadRow;
-                    return Ok(Some(ConvertLineRow::Row(self.convert_row()?)));
+                    return self.convert_row_or_end_sequence().map(Some);
                 }
-                ConvertLineState::ConvertRow => {
+                ConvertLineState::ConvertRow | ConvertLineState::EndSequence => {
                     self.state = ConvertLineState::ReadRow;
-                    return Ok(Some(ConvertLineRow::Row(self.convert_row()?)));
+                    return self.convert_row_or_end_sequence().map(Some);
                 }
             }
-            let mut tombstone = false;
             self.address = None;
+            if self.from_row.end_sequence() {
+                self.base_address = 0;
+                self.has_rows = false;
+                self.prev_position = (0, 0);
+            }
             self.from_row.reset(self.from_program.header());
             while let Some(instruction) = self
                 .from_instructions
@@ -1366,17 +1391,13 @@ mod convert {
             {
                 match instruction {
                     read::LineInstruction::SetAddress(val) => {
-                        // Use address 0 so that all addresses are offsets.
-                        self.from_row.execute(
-                            read::LineInstruction::SetAddress(0),
-                            &mut self.from_program,
-                        )?;
-                        // Handle tombstones the same way that `from_row.execute` would have.
-                        let tombstone_address =
-                            !0 >> (64 - self.from_program.header().encoding().address_size * 8);
-                        tombstone = val == tombstone_address;
-                        if !tombstone {
+                        // This applies the same tombstone handling as `read::LineRows`.
+                        self.from_row.execute(instruction, &mut self.from_program)?;
+                        if !self.from_row.is_tombstone() {
+                            // Addresses of rows are converted to offsets from this address.
                             self.address = Some(val);
+                            self.base_address = val;
+                            self.prev_position = (0, 0);
                         }
                         continue;
                     }
@@ -1398,30 +1419,54 @@ mod convert {
                     // This instruction didn't generate a new row.
                     continue;
                 }
-                if tombstone {
+                // Skip rows for tombstones, in the same way that `read::LineRows` does.
+                if self.from_row.is_tombstone() && !(self.from_row.end_sequence() && self.has_rows)
+                {
                     // Perform any reset that was required for the tombstone row.
                     // Normally this is done when `read_row` is called again, but for
                     // tombstones we loop immediately.
                     if self.from_row.end_sequence() {
-                        tombstone = false;
                         self.address = None;
+                        self.base_address = 0;
+                        self.prev_position = (0, 0);
                     }
                     self.from_row.reset(self.from_program.header());
                     continue;
                 }
-                if self.from_row.end_sequence() {
-                    self.check_address_offset()?;
-                    return Ok(Some(ConvertLineRow::EndSequence(self.from_row.address())));
-                }
+                self.has_rows = !self.from_row.end_sequence();
                 if let Some(address) = self.address.take() {
-                    self.state = ConvertLineState::ConvertRow;
+                    self.state = if self.from_row.end_sequence() {
+                        ConvertLineState::EndSequence
+                    } else {
+                        ConvertLineState::ConvertRow
+                    };
                     return Ok(Some(ConvertLineRow::SetAddress(address)));
-                } else {
-                    self.state = ConvertLineState::ReadRow;
-                    return Ok(Some(ConvertLineRow::Row(self.convert_row()?)));
                 }
+                return self.convert_row_or_end_sequence().map(Some);
             }
             Ok(None)
+        }
+
+        /// The offset of the address of `self.from_row` from the most recent
+        /// `DW_LNE_set_address`.
+        fn address_offset(&self) -> u64 {
+            self.from_row.address().wrapping_sub(self.base_address)
+        }
+
+        fn convert_row_or_end_sequence(&mut self) -> ConvertResult<ConvertLineRow> {
+            // The writer requires that addresses don't decrease within a sequence.
+            // The reader allows this when the address wraps.
+            let position = (self.address_offset(), self.from_row.op_index());
+            if position < self.prev_position {
+                return Err(ConvertError::UnsupportedLineInstruction);
+            }
+            self.prev_position = position;
+            if self.from_row.end_sequence() {
+                self.check_address_offset()?;
+                Ok(ConvertLineRow::EndSequence(self.address_offset()))
+            } else {
+                Ok(ConvertLineRow::Row(self.convert_row()?))
+            }
         }
 
         /// Check that the address offset of the current row can be written.
@@ -1431,7 +1476,7 @@ mod convert {
         /// `DW_LNS_fixed_advance_pc`, which is not supported by the writer.
         fn check_address_offset(&self) -> ConvertResult<()> {
             let min_len = u64::from(self.program.line_encoding.minimum_instruction_length);
-            if min_len > 1 && !self.from_row.address().is_multiple_of(min_len) {
+            if min_len > 1 && !self.address_offset().is_multiple_of(min_len) {
                 return Err(ConvertError::UnsupportedLineInstruction);
             }
             Ok(())
@@ -1440,7 +1485,7 @@ mod convert {
         fn convert_row(&self) -> ConvertResult<LineRow> {
             self.check_address_offset()?;
             Ok(LineRow {
-                address_offset: self.from_row.address(),
+                address_offset: self.address_offset(),
                 op_index: self.from_row.op_index(),
                 file: {
                     let file = self.from_row.file_index();
@@ -1499,10 +1544,22 @@ mod convert {
             let mut rows = Vec::new();
             match self.state {
                 ConvertLineState::ReadRow => {}
-                ConvertLineState::SetAddress | ConvertLineState::ConvertRow => {
+                ConvertLineState::SetAddress
+                | ConvertLineState::ConvertRow
+                | ConvertLineState::EndSequence => {
                     start = self.address;
-                    rows.push(self.convert_row()?);
                     self.state = ConvertLineState::ReadRow;
+                    match self.convert_row_or_end_sequence()? {
+                        ConvertLineRow::EndSequence(length) => {
+                            return Ok(Some(ConvertLineSequence {
+                                start,
+                                end: ConvertLineSequenceEnd::Length(length),
+                                rows,
+                            }));
+                        }
+                        ConvertLineRow::Row(row) => rows.push(row),
+                        ConvertLineRow::SetAddress(_) => unreachable!(),
+                    }
                 }
             }
             while let Some(row) = self.read_row()? {
@@ -1543,8 +1600,12 @@ mod convert {
         }
 
         /// Call [`LineProgram::set_address`] for the converted program.
+        ///
+        /// The address offsets of subsequent rows are relative to this address.
         pub fn set_address(&mut self, address: Address) {
             self.program.set_address(address);
+            self.program.prev_row.address_offset = 0;
+            self.program.prev_row.op_index = 0;
         }
 
         /// Call [`LineProgram::end_sequence`] for the converted program.
